@@ -170,14 +170,14 @@ def run_chunk(cases):
                                % (victim, k, sorted(got), sorted(lo), sorted(hi)))
                 # ... and of the walk towards the root: the chain ends where the walk finds nobody
                 # (or runs through, if the walk had passed the victim already)
-                if not e["cyclic"] and victim in e["parents"]:
+                for kk in (range(1, 25) if not e["cyclic"] and victim in e["parents"] else ()):
                     build(w, e["tbl"])
                     ps.pids()
                     p2 = ps.Process(s)
                     full = list(e["parents"])
                     cut = full[:full.index(victim)]
                     base = w.acc
-                    w.hooks.setdefault(base + k, []).append(lambda: w.vanish(victim))
+                    w.hooks.setdefault(base + kk, []).append(lambda: w.vanish(victim))
                     try:
                         chain = [x.pid for x in bounded(p2.parents)]
                     except ps.NoSuchProcess as ex:
@@ -188,7 +188,8 @@ def run_chunk(cases):
                         w.hooks.clear()
                     if chain not in (full, cut):
                         bad.append("parents() with ancestor %d vanishing at access %d -> %r, must be %r or %r"
-                                   % (victim, k, chain, full, cut))
+                                   % (victim, kk, chain, full, cut))
+                        break
                 # parent() itself answers for a live caller whatever happens to the parent meanwhile
                 if e["parent"] == victim:
                     for kk in range(1, 13):
